@@ -68,6 +68,7 @@ def build(u):
     bw = Src.get("block_watcher.rs")
     em = Src.get("email.rs")
     u.drop_async = True
+    u.cancel_unsafe = {"pay": "pay__dropped"}     # E3d
     u.e7 = True
     for g in GHOST:
         u.ghost_callees[g] = "Tracked(w)"
